@@ -665,14 +665,16 @@ fn build_av01_fmp4(config: &FragmentConfig) -> Vec<u8> {
 }
 
 fn build_av1c_fmp4(config: &FragmentConfig) -> Vec<u8> {
-    let mut payload = Vec::new();
-    payload.push(1); // version
-    payload.push(0); // seq_profile, seq_level_idx_0, seq_tier_0, high_bitdepth, twelve_bit, monochrome, chroma_subsampling_x, chroma_subsampling_y, chroma_sample_position, reserved
-    payload.push(0); // initial_presentation_delay_present, reserved
-    if let Some(seq_header) = &config.av1_sequence_header {
-        payload.extend_from_slice(seq_header);
-    }
-    build_box(b"av1C", &payload)
+    use crate::codec::av1::{extract_av1_config, Av1Config};
+
+    // Derive the av1C fields from the supplied Sequence Header OBU so that the record
+    // matches the stream (same 4-byte header + configOBUs layout as the progressive muxer).
+    let seq_header = config.av1_sequence_header.clone().unwrap_or_default();
+    let av1_config = extract_av1_config(&seq_header).unwrap_or(Av1Config {
+        sequence_header: seq_header,
+        ..Av1Config::default()
+    });
+    crate::muxer::mp4::build_av1c_box(&av1_config)
 }
 
 fn build_vp09_fmp4(config: &FragmentConfig) -> Vec<u8> {
